@@ -67,3 +67,45 @@ pub fn fmb_next_at<T: serde::de::DeserializeOwned + Clone>(v: &mut Vec<FmbIter<'
     v[k].next()
 }
 } // verus!
+
+verus! {
+/// chunk boundaries recorded by the file variant (lengths of the chunks appended so far); the memory
+/// variant re-chunks on read, so the two agree iff every append but the last has the read chunk size (C19)
+pub uninterp spec fn fmb_cuts<T>(b: FileOrMemBuf<T>) -> Seq<nat>;
+
+pub assume_specification<T: serde::Serialize + Clone>[ FileOrMemBuf::<T>::write_chunk ](b: &mut FileOrMemBuf<T>, chunk: &[T]) -> (r: Result<(), bincode::error::EncodeError>)
+    ensures
+        r is Ok ==> fmb_items(*final(b)) == fmb_items(*old(b)) + chunk@,
+        r is Ok ==> fmb_cuts(*final(b)) == fmb_cuts(*old(b)).push(chunk@.len());
+
+pub open spec fn sum_nat(s: Seq<nat>) -> nat decreases s.len() { if s.len() == 0 { 0 } else { sum_nat(s.drop_last()) + s.last() } }
+
+/// C19 call-site discipline: all chunks but the last have exactly size k, the last one is non-empty and <= k
+pub open spec fn chunked_by(cuts: Seq<nat>, k: nat) -> bool {
+    &&& forall|q: int| 0 <= q < cuts.len() - 1 ==> #[trigger] cuts[q] == k
+    &&& (cuts.len() > 0 ==> 0 < cuts.last() <= k)
+}
+} // verus!
+
+verus! {
+pub open spec fn prefix_sum(c: Seq<nat>, q: int) -> nat decreases q { if q <= 0 { 0 } else { prefix_sum(c, q - 1) + c[q - 1] } }
+
+/// C19: when every append but the last has exactly the read chunk size k, the chunk boundaries the file
+/// variant replays (prefix sums of the recorded cuts) are the multiples of k the memory variant re-chunks
+/// at — so `chunks(k)` yields the same chunks in both variants.
+pub proof fn lemma_chunks_agree(cuts: Seq<nat>, k: nat, q: int)
+    requires chunked_by(cuts, k), k > 0, 0 <= q < cuts.len(),
+    ensures prefix_sum(cuts, q) == q * k, /*@C19.lemma.file_and_memory_chunk_boundaries_agree*/
+    decreases q
+{
+    if q > 0 {
+        lemma_chunks_agree(cuts, k, q - 1);
+        assert(cuts[q - 1] == k);
+        assert(prefix_sum(cuts, q) == prefix_sum(cuts, q - 1) + cuts[q - 1]);
+        assert((q - 1) * k + k == q * k) by(nonlinear_arith);
+    } else {
+        assert(prefix_sum(cuts, 0) == 0);
+        assert(0 * k == 0) by(nonlinear_arith);
+    }
+}
+} // verus!
